@@ -203,6 +203,9 @@ pub enum Expr {
     /// assignment whose target is computed: `<target expr> op= <rhs>` (the target must evaluate
     /// to a string naming the variable)
     AssignTo(AOp, Box<Expr>, Box<Expr>),
+    /// a binary operator node that has only its left operand (`a +`): malformed but parseable;
+    /// the present operand must still be evaluated before the arity error is reported
+    Dangling(Bin, Box<Expr>),
 }
 
 impl Expr {
@@ -230,6 +233,7 @@ impl Expr {
             Expr::Tuple(v) | Expr::Chain(v) => v.iter().map(|e| e.size()).sum(),
             Expr::Assign(_, _, e) => e.size(),
             Expr::AssignTo(_, t, e) => t.size() + e.size(),
+            Expr::Dangling(_, a) => a.size(),
         }
     }
 
@@ -242,6 +246,7 @@ impl Expr {
             Expr::Tuple(v) | Expr::Chain(v) => v.iter().map(|e| e.depth()).max().unwrap_or(0),
             Expr::Assign(_, _, e) => e.depth(),
             Expr::AssignTo(_, t, e) => t.depth().max(e.depth()),
+            Expr::Dangling(_, a) => a.depth(),
         }
     }
 
@@ -250,7 +255,7 @@ impl Expr {
             Expr::Assign(..) | Expr::AssignTo(..) => true,
             Expr::Lit(_) | Expr::Read(_) => false,
             Expr::Call(_, a) => a.as_ref().map(|a| a.has_assignment()).unwrap_or(false),
-            Expr::Un(_, a) => a.has_assignment(),
+            Expr::Un(_, a) | Expr::Dangling(_, a) => a.has_assignment(),
             Expr::Bin(_, a, b) => a.has_assignment() || b.has_assignment(),
             Expr::Tuple(v) | Expr::Chain(v) => v.iter().any(|e| e.has_assignment()),
         }
@@ -350,6 +355,11 @@ impl Expr {
                 out.push(' ');
                 e.render_operand(out);
             },
+            Expr::Dangling(b, l) => {
+                l.render_operand(out);
+                out.push(' ');
+                out.push_str(b.sym());
+            },
         }
     }
 
@@ -433,6 +443,7 @@ impl Expr {
                 op.operator(),
                 vec![t.assemble_operand(wrap), e.assemble_operand(wrap)],
             ),
+            Expr::Dangling(b, l) => mk(b.operator(), vec![l.assemble_operand(wrap)]),
         }
     }
 
@@ -466,6 +477,9 @@ impl Expr {
                 .with("assign_to", Json::s(op.sym()))
                 .with("target", t.to_json())
                 .with("rhs", e.to_json()),
+            Expr::Dangling(b, l) => Json::obj()
+                .with("dangling", Json::s(b.sym()))
+                .with("l", l.to_json()),
         }
     }
 
@@ -517,6 +531,10 @@ impl Expr {
                 j.str_field("name")?.to_string(),
                 Box::new(Expr::from_json(j.field("rhs")?)?),
             ));
+        }
+        if let Some(b) = j.get("dangling") {
+            let b = Bin::from_sym(b.as_str().ok_or("bad dangling")?).ok_or("unknown binary operator")?;
+            return Ok(Expr::Dangling(b, Box::new(Expr::from_json(j.field("l")?)?)));
         }
         if let Some(op) = j.get("assign_to") {
             let op = AOp::from_sym(op.as_str().ok_or("bad assign_to")?)
@@ -601,6 +619,7 @@ impl Expr {
             Expr::Tuple(v) | Expr::Chain(v) => v.iter().collect(),
             Expr::Assign(_, _, e) => vec![e],
             Expr::AssignTo(_, t, e) => vec![t, e],
+            Expr::Dangling(_, a) => vec![a],
         }
     }
 
@@ -627,6 +646,7 @@ impl Expr {
                 Expr::Chain(w)
             },
             Expr::Assign(op, n, _) => Expr::Assign(*op, n.clone(), Box::new(c)),
+            Expr::Dangling(b, _) => Expr::Dangling(*b, Box::new(c)),
             Expr::AssignTo(op, t, e) => {
                 if i == 0 {
                     Expr::AssignTo(*op, Box::new(c), e.clone())
@@ -762,6 +782,8 @@ impl Expr {
             Expr::Bin(_, a, b) => a.is_renderable() && b.is_renderable(),
             Expr::Tuple(v) | Expr::Chain(v) => v.len() >= 2 && v.iter().all(|e| e.is_renderable()),
             Expr::Assign(_, _, e) => e.is_renderable(),
+            // assembled only: how the parser groups a dangling operator is not this check's business
+            Expr::Dangling(..) => false,
             // a bare identifier before `=` would be read as the variable itself
             Expr::AssignTo(_, t, e) => {
                 !matches!(**t, Expr::Read(_)) && t.is_renderable() && e.is_renderable()
